@@ -166,7 +166,46 @@ func (g *Gen) randomClause(s schema, depth int) Clause {
 	}
 }
 
+// leafContexts: every kind of leaf next to a leaf that selects some rows, before and after it, under Or
+// and And and negated: a leaf kernel must only ever add to (Or) or remove from (And) what its neighbours
+// selected, whatever its own outcome (all rows, no rows, error).
+func (g *Gen) leafContexts() {
+	for rep := 0; rep < g.pick(60, 600); rep++ {
+		g.begin("leaf contexts")
+		f := g.do(g.stdNew([]int{3, 6, 9}[g.rng.Intn(3)], "ACFTSEX", 6))
+		if g.rng.Intn(3) == 0 {
+			f = g.derive(f)
+		}
+		s := schemaOf(g.frame(f))
+		if s.err || s.typeOf("A") != "int" {
+			g.end()
+			continue
+		}
+		sel := Clause{K: "leaf", Col: toBS("A"), CmpK: "str", Cmp: ">", Arg: &Val{T: "int", I: intPool[g.rng.Intn(6)]}}
+		for k := 0; k < 3; k++ {
+			l := g.randomLeaf(s)
+			ctx := []Clause{
+				{K: "or", Subs: []Clause{sel, l}},
+				{K: "or", Subs: []Clause{l, sel}},
+				{K: "and", Subs: []Clause{sel, l}},
+				{K: "and", Subs: []Clause{l, sel}},
+				{K: "or", Subs: []Clause{sel, {K: "not", Subs: []Clause{l}}}},
+				{K: "or", Subs: []Clause{sel, l, sel}},
+				{K: "and", Subs: []Clause{{K: "null"}, l}},
+				{K: "or", Subs: []Clause{{K: "and", Subs: []Clause{sel}}, l}},
+			}
+			for i := range ctx {
+				if g.thorough() || g.rng.Intn(2) == 0 {
+					g.do(Step{Op: "Filter", Recv: f, Clause: &ctx[i]})
+				}
+			}
+		}
+		g.end()
+	}
+}
+
 func genC02(g *Gen) {
+	g.leafContexts()
 	colsets := []string{"ABCFG", "ACFST", "SREDX", "ABTU", "FGSE", "CEDXY", "ABCFGTUSREDXY"}
 	sizes := []int{0, 1, 2, 3, 4, 6, 9, 14, 25, 60, 300}
 	for rep := 0; rep < g.pick(300, 5000); rep++ {
